@@ -673,7 +673,7 @@ SUBS = [
 
 CLAIM = {
     "technique": "property-based testing (Hypothesis) against a table oracle written from the statement, plus exhaustive enumeration of the flag/version grid",
-    "text": "Generated-input search: every (entry point, method, params, rpcid, version, flags, Config) combination drawn or enumerated is compared member by member with the message the statement prescribes; ids checked for verbatim use / freshness; invalid combinations must raise TypeError/ValueError. Exhaustive only over the discrete grid; random over values.",
+    "text": "Generated-input search: every (entry point, method, params, rpcid, version, flags, Config) combination drawn or enumerated is compared member by member with the message the statement prescribes; ids checked for verbatim use / freshness; invalid combinations must raise TypeError/ValueError; one Fault object serialised several times (Fault.response / Fault.dump / dumps / dump with a version and an id per call) gives, each time, the members of the version selected for that call. Exhaustive only over the discrete grid; random over values.",
     "note": "Trusts Python's json as the reference parser and the statement-derived table in props/c14.py; built-in json backend only.",
     "design_ref": "DESIGN.md section 4, C14",
     "engine": "E1+E2",
